@@ -142,6 +142,31 @@ def prim(n, s):
         return (s['_clock'][i] - n.clock0[i]) >= abs(sec)
     if t == 'SolverInterrupt':
         return bool(s['earlyexit'])
+    if t == 'GradientNormTolerance':
+        # forward-difference gradient of the RAW cost at the current best (what the condition documents to use when the
+        # solver supplies no gradient), norm as given; a norm within rounding of the tolerance is undecided
+        spec = s.get('_cost_spec')
+        if spec is None: return None
+        from .env import eval_model
+        x = [float(v) for v in s['bestSolution']]
+        eps = math.sqrt(2.220446049250313e-16)
+        f0 = eval_model(spec, tuple(x))
+        if not _num(f0) or f0 != f0: return None
+        g = []
+        for k_ in range(len(x)):
+            xe = list(x); xe[k_] = x[k_] + eps
+            fk = eval_model(spec, tuple(xe))
+            if not _num(fk): return None
+            g.append((fk - f0) / eps)
+        if any(v != v for v in g): return None
+        p_ = kw.get('norm', inf); tol = kw.get('tolerance', 1e-5)
+        if p_ == inf: gn = max(abs(v) for v in g)
+        else:
+            try: gn = sum(abs(v) ** p_ for v in g) ** (1.0 / p_)
+            except (OverflowError, ZeroDivisionError): return None
+        if gn != gn: return None
+        if abs(gn - tol) <= 1e-9 * max(1.0, abs(tol)): return None
+        return gn <= tol
     return None
 
 def evaluate(n, s):
@@ -160,7 +185,7 @@ def evaluate(n, s):
         sats = [r[0] for r in rs]
         unknown = any(x is None for x in sats)
         if any(x is True for x in sats):
-            if unknown: return True, None
+            if unknown or any(r[0] and r[1] is None for r in rs): return True, None
             docs = set()
             for r in rs:
                 if r[0]: docs |= r[1]
